@@ -222,8 +222,10 @@ def run_cell(spec, res):
     k = {"N": 0, "I": 1, "C": 2}[spec["pos"]]
     forced = {(x, k): spec["side"]}
     # the terminal groups of this chain take the same side so that every (N+/C-, side) cell is reached as well
-    forced[("N+", 0)] = spec["side"]
-    forced[("C-", 2)] = spec["side"]
+    # (in every other cell they take the opposite side: a terminal row must never stand in for the side chain's)
+    tside = spec["side"] if (spec["seed"] // 3) % 2 == 0 else {"below": "above", "above": "below"}[spec["side"]]
+    forced[("N+", 0)] = tside
+    forced[("C-", 2)] = tside
     rows, groups = make_table(truth, rng, ph, forced)
     for g in groups:
         res.cell(g["group"], "N" if truth[g["k"]]["pos"] == "NC" else truth[g["k"]]["pos"], spec["ff"], g["side"])
